@@ -272,7 +272,16 @@ def rounding_attr(kind, op, tag, diag):
     return ["C09"] if kind == "RConv" else ["C08"]
 
 
+# ---------------------------------------------------------------------------------------------
+# bits family (C18)
+
+def bits_jobs(tier):
+    return [dict(src="h_bits.cpp", cc="gcc", tag="bits-gcc"), dict(src="h_bits.cpp", cc="clang", tag="bits-clang"),
+            dict(src="h_bits.cpp", cc="gcc", tag="bits-gcc-generic", defines=["CNL_USE_GCC_INTRINSICS=0"])]
+
+
 FAMILIES = {
+    "bits": dict(jobs=bits_jobs, attr=lambda kind, op, tag, diag: ["C18"]),
     "elastic": dict(jobs=elastic_jobs, attr=elastic_attr),
     "rounding": dict(jobs=rounding_jobs, attr=rounding_attr),
     "overflow": dict(jobs=overflow_jobs, attr=overflow_attr),
@@ -381,6 +390,18 @@ CHECKS = {
                "narrowed operand; recorded deviations must equal the as-coded model to count as the known finding.",
                "comparisons of elastic types are judged under C03; elastic_scaled_integer arithmetic under C01/C02 (values) "
                "with elastic reps; storage wider than 128 bits (wide_integer narrowest) not exercised here"),
+    "C18": chk(["bits"], [],
+               "events = one value of an unsigned (countl_zero ... log2p1, rotl/rotr for every count 0..2W) or signed "
+               "(countl_rsb, countl_rb, countr_used, used_digits, leading_bits, trailing_bits) integer type; 8-bit and "
+               "unsigned 16-bit types exhaustive (signed 16-bit in thorough), 32/64/128-bit TLC boundary sets (every 2^k, "
+               "2^k+-1) + seeded random; non-trivial = 0, all-ones, powers of two and their neighbours, rotation counts that "
+               "are multiples of the width",
+               "TLA+ spec (SemBits: C++20 <bit> definitions from bit length / residues of unbounded integers) evaluated by TLC "
+               "on every recorded event (trace validation); three builds: g++ intrinsics, clang++, g++ generic definitions",
+               "every function result of every recorded value must equal the definition; any UBSan trap (intrinsic on zero, "
+               "full-width shift) is a rejected outcome.",
+               "32-bit exhaustive (2^32 values per function) is beyond an explicit-state checker; ceil2 is judged only "
+               "where the result is representable (as std::bit_ceil)"),
     "C06": chk(["overflow"], ["overflow"],
                "events = one tagged operation (operate<Op,Tag>, overflow_integer operators, convert<Tag,Dest>) on a pair of "
                "built-in integer types x operand values (8-bit lhs exhaustive x TLC boundary set; wider: TLC boundary set^2 + "
